@@ -5,6 +5,7 @@ import (
 	"fmt"
 	"io"
 	"math"
+	"math/bits"
 	"regexp"
 	"sort"
 	"strconv"
@@ -251,6 +252,8 @@ type TTMLInDuration struct {
 	d                 time.Duration
 	frames, framerate int // Framerate is in frame/s
 	ticks, tickrate   int // Tickrate is in ticks/s
+	// Fraction of an offset time's count of frames or ticks ("12.5f", "1.5t"), in billionths of a frame or tick
+	framesFraction, ticksFraction int64
 }
 
 // UnmarshalText implements the TextUnmarshaler interface
@@ -263,6 +266,8 @@ func (d *TTMLInDuration) UnmarshalText(i []byte) (err error) {
 	d.d = time.Duration(0)
 	d.frames = 0
 	d.ticks = 0
+	d.framesFraction = 0
+	d.ticksFraction = 0
 
 	// Check offset time
 	text := string(i)
@@ -280,8 +285,10 @@ func (d *TTMLInDuration) UnmarshalText(i []byte) (err error) {
 		// Update duration
 		if metric == "t" {
 			d.ticks = int(value)
+			d.ticksFraction = ttmlCountFraction(matches[2])
 		} else if metric == "f" {
 			d.frames = int(value)
+			d.framesFraction = ttmlCountFraction(matches[2])
 		} else {
 			// Get timebase
 			var timebase time.Duration
@@ -323,13 +330,43 @@ func (d *TTMLInDuration) UnmarshalText(i []byte) (err error) {
 	return
 }
 
+// ttmlCountFraction returns the fraction of a count (".5" in "12.5f") in billionths
+func ttmlCountFraction(s string) int64 {
+	if len(s) == 0 {
+		return 0
+	}
+	f, err := strconv.ParseFloat("0"+s, 64)
+	if err != nil {
+		return 0
+	}
+	return int64(math.Round(f * 1e9))
+}
+
+// ttmlCountDuration returns the duration of count + fraction/1e9 units at rate units per second
+// (128-bit integer arithmetic: the result is exact, rounded down to the nanosecond)
+func ttmlCountDuration(count int, fraction int64, rate int) time.Duration {
+	hi, lo := bits.Mul64(uint64(count), 1e9)
+	lo, carry := bits.Add64(lo, uint64(fraction), 0)
+	hi += carry
+	if hi >= uint64(rate) {
+		return time.Duration(math.MaxInt64)
+	}
+	q, _ := bits.Div64(hi, lo, uint64(rate))
+	return time.Duration(q)
+}
+
 // duration returns the input TTML Duration's time.Duration
 func (d TTMLInDuration) duration() (o time.Duration) {
+	if d.ticksFraction > 0 && d.ticks >= 0 && d.tickrate > 0 {
+		return ttmlCountDuration(d.ticks, d.ticksFraction, d.tickrate)
+	}
 	if d.ticks > 0 && d.tickrate > 0 {
 		return time.Duration(float64(d.ticks) * 1e9 / float64(d.tickrate))
 	}
 	o = d.d
-	if d.frames > 0 && d.framerate > 0 {
+	if d.framesFraction > 0 && d.frames >= 0 && d.framerate > 0 {
+		o += ttmlCountDuration(d.frames, d.framesFraction, d.framerate)
+	} else if d.frames > 0 && d.framerate > 0 {
 		// (integer arithmetic: 209 frames at 25 fps are exactly 8.36s, float64 gives 8.359999999s)
 		o += time.Duration(d.frames) * time.Second / time.Duration(d.framerate)
 	}
